@@ -588,33 +588,38 @@ func (s *Module) AddMPTNodes(nodes [][]byte) error {
 		return fmt.Errorf("MPT nodes were not requested: current state sync stage is %d", s.syncStage)
 	}
 
+	var err error
 	for _, nBytes := range nodes {
 		var n mpt.NodeObject
 		r := io.NewBinReaderFromBuf(nBytes)
 		n.DecodeBinary(r) // we're OK with counting depth from 0 for every node, maintaining it for every node in pool is excessive.
 		if r.Err != nil {
-			return fmt.Errorf("failed to decode MPT node: %w", r.Err)
+			err = fmt.Errorf("failed to decode MPT node: %w", r.Err)
+			break
 		}
 		// Hash and Empty nodes are never requested (and Empty one can't be hashed).
 		if t := n.Node.Type(); t == mpt.HashT || t == mpt.EmptyT {
-			return fmt.Errorf("unexpected MPT node of type %d", t)
+			err = fmt.Errorf("unexpected MPT node of type %d", t)
+			break
 		}
 		// Children are referenced by hash in a stored node. The node's hash is
 		// calculated over that form, so a node with a child serialized in place
 		// has the requested hash too, but its children would never be requested.
 		// Compare what was decoded (trailing bytes are ignored) with that form.
 		if !bytes.Equal(n.Node.Bytes(), nBytes[:len(nBytes)-r.Len()]) {
-			return errors.New("MPT node is not in its canonical form")
+			err = errors.New("MPT node is not in its canonical form")
+			break
 		}
-		err := s.restoreNode(n.Node)
+		err = s.restoreNode(n.Node)
 		if err != nil {
-			return err
+			break
 		}
 	}
+	// The nodes preceding a bad one could have completed the trie.
 	if s.mptpool.Count() == 0 {
-		_, err := s.dao.Store.PersistSync()
-		if err != nil {
-			return fmt.Errorf("failed to persist last batch of MPT nodes: %w", err)
+		_, perr := s.dao.Store.PersistSync()
+		if perr != nil {
+			return fmt.Errorf("failed to persist last batch of MPT nodes: %w", perr)
 		}
 		s.syncStage |= mptSynced
 		s.blockHeight = s.getLatestSavedBlock(s.syncPoint)
@@ -623,7 +628,7 @@ func (s *Module) AddMPTNodes(nodes [][]byte) error {
 			zap.Uint32("blockHeight", s.blockHeight),
 		)
 	}
-	return nil
+	return err
 }
 
 // AddContractStorageItems adds a batch of key-value pairs for storage-based sync.
